@@ -109,6 +109,20 @@ theorem cond_agree (x : Opnd) (hn : x.ty ≠ .nil)
       simp_all [Ty.kind?, Ty.rtype?, RTy.kind, kindIsG, underKind, Res.bind, bind] <;>
       (try split) <;> simp_all
 
+/-- type assertions: for every operand but `nil` and every asserted type, `typeAssertionExpr` decides as the
+    specification (on the fragment: methods compared by name, `isBin` false, value receivers, one signature) -/
+theorem assert_agree (typ : Ty) (x : Opnd) (hn : x.ty ≠ .nil) : assertY TE typ x = assertG typ x := by
+  have hs : TE.assertSkipMissing = .andBin := rfl
+  unfold assertY assertG kindOf
+  rw [hs]
+  cases hty : x.ty with
+  | nil => exact absurd hty hn
+  | iface i m =>
+    by_cases hm : m.isEmpty <;> by_cases ht : typ.isIface <;>
+      simp [Ty.kind?, Ty.rtype?, RTy.kind, Ty.isIface, Ty.methods, subset, hm, ht, Res.bind, bind]
+    all_goals simp_all [List.isEmpty_iff]
+  | _ => simp [Ty.kind?, Ty.rtype?, RTy.kind, Ty.isIface, Res.bind, bind]
+
 theorem recv_typed_agree (T : TcFacts) (x : Opnd) (hxt : x.ty.isUntyped = false) : recvY T x = recvG x := by
   unfold recvY recvG kindOf
   cases hty : x.ty with
